@@ -90,6 +90,20 @@ func VerifC10_ListenerAllowed() {
 		}
 		if nd.Bool("namespaces") {
 			rn := &gatewayv1.RouteNamespaces{}
+			// the selector may be present whatever `from` says (e.g. left behind when a Gateway is
+			// switched from Selector to Same): it only counts for from=Selector
+			selOK := false
+			if nd.Bool("selector") {
+				want := []string{"prod", "dev"}[nd.Choice("selector.value", 2)]
+				rn.Selector = &metav1.LabelSelector{MatchLabels: map[string]string{"env": want}}
+				cache.nsErr = nd.Bool("ns.err")
+				hasLabel := nd.Bool("ns.haslabel")
+				have := []string{"prod", "dev"}[nd.Choice("ns.value", 2)]
+				if hasLabel {
+					cache.nsLabels = map[string]string{"env": have}
+				}
+				selOK = !cache.nsErr && hasLabel && have == want
+			}
 			if nd.Bool("from") {
 				f := zzFroms[nd.Choice("fromvalue", len(zzFroms))]
 				rn.From = &f
@@ -99,17 +113,7 @@ func VerifC10_ListenerAllowed() {
 				case gatewayv1.NamespacesFromAll:
 					nsOK = true
 				case gatewayv1.NamespacesFromSelector:
-					if nd.Bool("selector") {
-						want := []string{"prod", "dev"}[nd.Choice("selector.value", 2)]
-						rn.Selector = &metav1.LabelSelector{MatchLabels: map[string]string{"env": want}}
-						cache.nsErr = nd.Bool("ns.err")
-						hasLabel := nd.Bool("ns.haslabel")
-						have := []string{"prod", "dev"}[nd.Choice("ns.value", 2)]
-						if hasLabel {
-							cache.nsLabels = map[string]string{"env": have}
-						}
-						nsOK = !cache.nsErr && hasLabel && have == want
-					}
+					nsOK = selOK
 				}
 			}
 			ar.Namespaces = rn
